@@ -2801,6 +2801,21 @@ static void provider_case(uint64_t seed)
     mp->AddMetricReader(rd1);
     if (two)
       mp->AddMetricReader(rd2);
+    // a collection cycle with nothing to report (no meter / no instrument yet) still hands the reader a batch,
+    // and "every ... metric batch references its provider's resource" (seeded change C18-3 was missed without this)
+    if (r.coin())
+    {
+      SeenList empty1;
+      bool before_meter = r.coin();
+      if (!before_meter)
+        (void)mp->GetMeter("c18.meter");
+      rd1->Collect([&](sdkm::ResourceMetrics &rm) {
+        empty1.add(rm.resource_);
+        return true;
+      });
+      judge_seen(empty1, 1, &mp->GetResource(), A, schema, "metric-batch-empty-cycle", how);
+      R.count("provider_metric_batches_empty_cycle", empty1.items.size());
+    }
     {
       auto meter = mp->GetMeter("c18.meter");
       auto ctr   = meter->CreateUInt64Counter("c18.counter");
